@@ -161,6 +161,15 @@ where
             other => panic!("lu not available for shape {other}"),
         };
     }
+    if kind.starts_with("jac;") {
+        return match spec.shape.as_str() {
+            "Real" => cases::run_jac::<F, Real>(kind, pres),
+            "Dual" => cases::run_jac::<F, DualS<Real>>(kind, pres),
+            "Dual2" => cases::run_jac::<F, Dual2S<Real>>(kind, pres),
+            "HyperDual" => cases::run_jac::<F, HyperS<Real>>(kind, pres),
+            other => panic!("jac not available for shape {other}"),
+        };
+    }
     if kind == "cmp" {
         return match spec.shape.as_str() {
             "Real" => cases::run_cmp::<F, Real>(pres),
